@@ -415,7 +415,7 @@ func (e *Engine) blocksFor(prop string) []*Block {
 	var out []*Block
 	for _, cf := range e.files {
 		for _, b := range cf.Blocks {
-			if b.Kind != "func" {
+			if b.Kind != "func" && b.Kind != "lemma" {
 				continue
 			}
 			if prop == "" || b.HasProp(prop) {
